@@ -14,15 +14,18 @@ permutation); the theorems hold for every such function, the driver uses the ide
 * `keepOnAbort`     – `HandleServerShutdown` re-inserts the accounts it did not get to when a re-subscription fails;
 * `inlineOnError`   – `connectAndAuthenticate` re-connects itself when the diverted stream error hit its handshake
                       while waiting for the challenge or for the final answer (before: only when a send failed);
-* `handlerRetries`  – `serverHandler` calls `HandleServerShutdown` again until it succeeds.
+* `handlerRetries`  – `serverHandler` calls `HandleServerShutdown` again until it succeeds;
+* `serializeReconnects` – a shutdown notice read while a `HandleServerShutdown` is in progress no longer starts a
+                      second one: the reader only closes the stream and marks the running re-connect dirty, which
+                      then starts over.
 
 `connectAndAuthenticate` → `HandleServerShutdown` → `StartAccountSubscription` → `connectAndAuthenticate` is a real
 recursion in the Go code (one level per stream failure that hits a handshake); the model unrolls it by levels
 (`hsLevel`), each level consuming at least one behaviour of the script.
 
-What is *not* modelled (`chaos = true`): a shutdown notice that arrives while `HandleServerShutdown` is itself
-re-subscribing – the new stream's reader then runs a second `HandleServerShutdown` concurrently with the first one and
-the outcome depends on the goroutine schedule (open finding `C18/client/concurrent-reconnects`). -/
+Without `serializeReconnects` a shutdown notice that arrives while `HandleServerShutdown` is itself re-subscribing is
+*not* modelled (`chaos = true`): the new stream's reader then runs a second `HandleServerShutdown` concurrently with
+the first one and the outcome depends on the goroutine schedule (finding `C18/client/concurrent-reconnects`). -/
 namespace Pool.C18
 
 /-- behaviour of the auctioneer for one incoming commitment -/
@@ -40,12 +43,13 @@ structure Variant where
   keepOnAbort : Bool
   inlineOnError : Bool
   handlerRetries : Bool
+  serializeReconnects : Bool
 deriving DecidableEq, Repr
 
 /-- the code as repaired -/
-def Variant.fixed : Variant := ⟨true, true, true⟩
+def Variant.fixed : Variant := ⟨true, true, true, true⟩
 /-- the code before the repairs -/
-def Variant.orig : Variant := ⟨false, false, false⟩
+def Variant.orig : Variant := ⟨false, false, false, false⟩
 
 /-- which variant the source is, read off the regenerated shapes (`Pool.Gen.C18`): `keepSubscriptions` is called in
 `HandleServerShutdown`; `connectAndAuthenticate` has three `HandleServerShutdown` call sites; `serverHandler` calls
@@ -53,7 +57,9 @@ def Variant.orig : Variant := ⟨false, false, false⟩
 def variantOfSource : Variant :=
   { keepOnAbort := Pool.Gen.C18.handleShutdownShape.contains "c.keepSubscriptions"
     inlineOnError := Pool.Gen.C18.connectAndAuthShape.count "c.HandleServerShutdown" == 3
-    handlerRetries := Pool.Gen.C18.handlerReaction.contains "for err != nil && err != auctioneer.ErrClientShutdown" }
+    handlerRetries := Pool.Gen.C18.handlerReaction.contains "for err != nil && err != auctioneer.ErrClientShutdown"
+    serializeReconnects := Pool.Gen.C18.shutdownNoticeReaction.contains "if c.reconnecting > 0" &&
+      Pool.Gen.C18.handleShutdownShape.contains "if c.reconnectDirty" }
 
 /-- the auctioneer's view of one stream -/
 structure Stream where
@@ -86,6 +92,8 @@ structure Client where
   /-- scripted auctioneer: refusals of the next `Terms` calls, behaviours of the next commitments -/
   refuse : Nat := 0
   beh : List Beh := []
+  /-- that many of the next stream opens fail although the `Terms` probe before them succeeded -/
+  failOpen : Nat := 0
   /-- left the modelled fragment (see header) -/
   chaos : Bool := false
 deriving DecidableEq, Repr
@@ -101,7 +109,11 @@ def Client.setCur (c : Client) (f : Stream → Stream) : Client :=
 loop has 32767 retries), then the stream is opened and a reader goroutine started.  The waits requested in between
 are `(connect init min max 32767 refuse).waits` (see `C18_backoff_shape`). -/
 def Client.connectStream (c : Client) : Client :=
-  { c with attempts := c.attempts + c.refuse + 1, refuse := 0, streams := {} :: c.streams, isOpen := true }
+  if c.failOpen = 0 then
+    { c with attempts := c.attempts + c.refuse + 1, refuse := 0, streams := {} :: c.streams, isOpen := true }
+  else
+    -- `c.serverStream, err = c.client.SubscribeBatchAuction(ctx)` fails: `serverStream` is nil, the error is returned
+    { c with attempts := c.attempts + c.refuse + 1, refuse := 0, failOpen := c.failOpen - 1, isOpen := false }
 
 /-- `closeStream()`: no-op without a stream; else `CloseSend`, cancel, `serverStream = nil`, close every
 subscription's `quit`/`msgChan`. -/
@@ -117,6 +129,7 @@ inductive HsRes
   | errTransport   -- an error was returned; nothing else happens (the reader goroutine has exited)
   | errShutdown    -- an error was returned *and* the reader goroutine runs `HandleServerShutdown(nil)`
   | errRejected    -- an error was returned; the stream is still up
+  | errConnect     -- `connectServerStream` returned an error (there is no stream)
 deriving DecidableEq, Repr
 
 def addAcct (l : List Nat) (a : Nat) : List Nat := if a ∈ l then l else l ++ [a]
@@ -129,6 +142,8 @@ def Client.connectAndAuth (v : Variant) (inline : Client → Client × HsRes) (c
   if a ∈ c.accts then (c, .ok) else
   -- needToConnect := c.serverStream == nil
   let c := if c.isOpen then c else c.connectStream
+  -- "connecting server stream failed": returned before the map insertion
+  if !c.isOpen then (c, .errConnect) else
   -- c.subscribedAccts[acctPubKey] = sub   (before authenticate, never removed on failure)
   let c := { c with accts := addAcct c.accts a }
   if !c.cur.alive then
@@ -167,22 +182,37 @@ def Client.resubLoop (v : Variant) (hs : Client → Nat → Client × HsRes) (c 
       -- all keys were deleted from the map before the loop
       (if v.keepOnAbort then { c' with accts := keepAccts c'.accts rest } else c', r)
 
-/-- `HandleServerShutdown(err)` up to its return value; `pick` = map iteration order -/
-def Client.handleShutdown (v : Variant) (pick : List Nat → List Nat) (hs : Client → Nat → Client × HsRes)
+/-- `reconnect(err)` (the body of `HandleServerShutdown`) up to its return value; `pick` = map iteration order -/
+def Client.reconnectOnce (v : Variant) (pick : List Nat → List Nat) (hs : Client → Nat → Client × HsRes)
     (c : Client) : Client × HsRes :=
   let c := c.closeStream
   -- connectServerStream(c.cfg.MinBackoff, reconnectRetries)
   let c := c.connectStream
+  -- `if err != nil { return err }`: the map is untouched
+  if !c.isOpen then (c, .errConnect) else
   -- collect the keys in map order and delete them all
-  match { c with accts := [] }.resubLoop v hs (pick c.accts) with
-  -- a shutdown notice hit a re-subscription: a second HandleServerShutdown now runs concurrently (not modelled)
-  | (c', .errShutdown) => ({ c' with chaos := true }, .errShutdown)
-  | r => r
+  { c with accts := [] }.resubLoop v hs (pick c.accts)
+
+/-- `HandleServerShutdown(err)`: `reconnect`, started over while a shutdown notice arrived during the attempt (the
+reader of the new stream closed it and set `reconnectDirty`); `fuel` bounds the unrolling – every such round consumes
+a shutdown behaviour of the script.  Before the repair the reader started a concurrent `HandleServerShutdown`. -/
+def Client.handleShutdown (v : Variant) (pick : List Nat → List Nat) (hs : Client → Nat → Client × HsRes) :
+    Nat → Client → Client × HsRes
+  | 0, c =>
+    match c.reconnectOnce v pick hs with
+    | (c', .errShutdown) => ({ c' with chaos := true }, .errShutdown)
+    | r => r
+  | f + 1, c =>
+    match c.reconnectOnce v pick hs with
+    | (c', .errShutdown) =>
+      if v.serializeReconnects then Client.handleShutdown v pick hs f c'.closeStream
+      else ({ c' with chaos := true }, .errShutdown)
+    | r => r
 
 /-- the handshake function at recursion depth `n` (number of further stream failures it can absorb inline) -/
 def hsLevel (v : Variant) (pick : List Nat → List Nat) : Nat → Client → Nat → Client × HsRes
   | 0 => Client.connectAndAuth v (fun c => ({ c with chaos := true }, .ok))
-  | n + 1 => Client.connectAndAuth v (fun c => c.handleShutdown v pick (hsLevel v pick n))
+  | n + 1 => Client.connectAndAuth v (fun c => c.handleShutdown v pick (hsLevel v pick n) (n + 1))
 
 /-- reaction of `rpcServer.serverHandler` to an error `e ≠ nil, ≠ ErrServerShutdown` on `StreamErrChan`:
 `HandleServerShutdown(e)`; before the repair the result was only logged, now it is retried until nil
@@ -226,9 +256,10 @@ inductive Ret
 deriving DecidableEq, Repr
 
 def Client.step (v : Variant) (pick : List Nat → List Nat) (c : Client) (op : Op) : Client × Ret :=
-  let depth := c.beh.length
+  -- every nested reconnect / handler retry consumes a behaviour of the script or a failing open
+  let depth := c.beh.length + c.failOpen
   let hs := hsLevel v pick depth
-  let hsd := fun c : Client => c.handleShutdown v pick hs
+  let hsd := fun c : Client => c.handleShutdown v pick hs depth
   match op with
   | .sub a =>
     match hs c a with
@@ -244,7 +275,7 @@ def Client.step (v : Variant) (pick : List Nat → List Nat) (c : Client) (op : 
     if c.isOpen && c.cur.alive then (c.readerShutdown v hsd depth, .none_) else (c, .none_)
 
 /-- install the auctioneer's script for the next op -/
-def Client.script (c : Client) (refuse : Nat) (beh : List Beh) : Client :=
-  { c with refuse := refuse, beh := beh, mainErrs := [], handlerRes := [] }
+def Client.script (c : Client) (refuse : Nat) (beh : List Beh) (failOpen : Nat := 0) : Client :=
+  { c with refuse := refuse, beh := beh, failOpen := failOpen, mainErrs := [], handlerRes := [] }
 
 end Pool.C18
